@@ -4,6 +4,8 @@ C02 — method rows are exactly what the place notation defines.
 import Wheatley.Props.C04
 import Wheatley.Lemmas.RoundTripH
 import Wheatley.Lemmas.Change
+import Wheatley.Lemmas.MethodRows
+import Wheatley.Model.World
 namespace Wheatley.C02
 open Wheatley.C04
 
@@ -232,5 +234,44 @@ example :
     textOf bs = "&x.16-16..x.16,+12".toList ∧
     denoteAll bs = [[], [1, 6], [], [1, 6], [], [1, 6], [], [1, 6], [], [1, 6], [], [1, 2]] := by
   decide
+
+
+/-! ### System level: what is rung in the method is what the generator produced
+
+The theorems above say what rows a generator produces.  This one says that those are the rows Wheatley rings: in
+the timed world of `Model/World.lean`, in every state of every run. -/
+
+section System
+variable {K : Type} [Num K]
+open MethodRows
+
+/-- **While the method is being rung, the row Wheatley is ringing begins with the row generator's current row** (what
+follows it are the cover bells, C01 / C03) - in every state of every run, for any events at any times: calls,
+Look To at any moment, selections, size changes in mid-touch, settings, Stop Touch.  "The method is being rung" is
+what the Bot's flags say: ringing, and neither the opening row nor rounds.  The generators concerned are those whose
+`next_row` cannot raise (`Total`: place notation - hence Grandsire, Stedman and every CCCBR method -, Plain Hunt,
+compositions); selections (`Sel`) must be of that kind too.
+
+So every statement about the generator's rows - `plain_rows_denoted`, `generator_rings_the_notation`, C04's call
+laws, C03's legality - is a statement about the rows rung. -/
+theorem method_rows_are_the_generators (wt : K → K) (endTime : K) (fuel : Nat) (w : World K)
+    (events : List (K × Ev)) (hs : ∀ ev ∈ events, Sel ev.2) (h : MethodRows.Inv w.bot) :
+    (World.run wt endTime fuel w events).1.bot.isRinging = true →
+    (World.run wt endTime fuel w events).1.bot.ringingOpening = false →
+    (World.run wt endTime fuel w events).1.bot.ringingRounds = false →
+      (World.run wt endTime fuel w events).1.bot.gen.row <+: (World.run wt endTime fuel w events).1.bot.row :=
+  fun h1 h2 h3 => (MethodRows.botInvariant.run wt endTime fuel w events hs h).row ⟨h1, h2, h3⟩
+
+/-- The hypothesis holds of a freshly built Bot (it is not ringing). -/
+theorem fresh_bot_inv (g : Gen) (u s c : Bool) (nm : Option String) (id : Option Nat) (hg : Total g.kind) :
+    MethodRows.Inv (Bot.init g u s c nm id) :=
+  { total := hg, queued := (by intro g' hg'; cases hg'), row := (by intro hm; cases hm.1) }
+
+/-- Non-vacuity: Grandsire Triples is a total generator. -/
+example : ∃ g, mkGrandsire 7 none = some g ∧ Total g.kind := by
+  refine ⟨(mkGrandsire 7 none).get (by decide), by simp, ?_⟩
+  decide
+
+end System
 
 end Wheatley.C02
